@@ -27,7 +27,12 @@ def reprFactsBefore : ReprFacts :=
 def constOp : List (Act × String) :=
   [(.add, "addConst"), (.sub, "subConst"), (.mul, "mulConst"), (.quo, "quoConst"), (.rem, "remConst"),
    (.and, "andConst"), (.or, "orConst"), (.shl, "shlConst"), (.shr, "shrConst"), (.andNot, "andNotConst"),
-   (.xor, "xorConst"), (.not, "notConst"), (.bitNot, "bitNotConst"), (.neg, "negConst"), (.pos, "posConst")]
+   (.xor, "xorConst"), (.not, "notConst"), (.bitNot, "bitNotConst"), (.neg, "negConst"), (.pos, "posConst"),
+   (.eq, "compareConst"), (.ne, "compareConst"), (.lt, "compareConst"), (.le, "compareConst"),
+   (.gt, "compareConst"), (.ge, "compareConst")]
+
+/-- the map before d04f498: comparisons have no folding function -/
+def constOpBeforeR3 : List (Act × String) := constOp.take 15
 
 /-- interp/op.go: what each folding function hands to go/constant, and the Go operator of its typed arms -/
 def folds : List FoldFn :=
@@ -60,7 +65,8 @@ def folds : List FoldFn :=
    { name := "bitNotConst", entry := .unaryOp, tok := .xor, toInt := false, bothConst := false,
      typed := [(.uint, .xor), (.sint, .xor)] },
    { name := "notConst", entry := .unaryOp, tok := .not, toInt := false, bothConst := false,
-     typed := [(.bool, .not)] }]
+     typed := [(.bool, .not)] },
+   { name := "compareConst", entry := .compare, tok := .other, toInt := false, bothConst := false, typed := [] }]
 
 /-- interp/op.go quoConst: integer quotient (QUO_ASSIGN) exactly when both operand constants are of kind Int
     (since the repair of F48; before: when the node type, copied from the context, was untyped and integer) -/
@@ -68,7 +74,34 @@ def quoSwitch : QuoSwitch :=
   { cond := "c0.Kind() == constant.Int && c1.Kind() == constant.Int", rule := .operandKinds,
     thenTok := .quoAssign, elseTok := .quo }
 
-def evalFacts : EvalFacts := { constOp := constOp, folds := folds, quo := quoSwitch, fixSkipsConst := true }
+/-- interp/typecheck.go `constToken` -/
+def constToken : List (Act × Tok) :=
+  [(.add, .add), (.sub, .sub), (.mul, .mul), (.quo, .quo), (.rem, .rem), (.and, .and), (.or, .or), (.xor, .xor),
+   (.andNot, .andNot), (.shl, .shl), (.shr, .shr), (.neg, .sub), (.pos, .add), (.bitNot, .xor), (.not, .not),
+   (.eq, .eql), (.ne, .neq), (.lt, .lss), (.le, .leq), (.gt, .gtr), (.ge, .geq)]
+
+/-- the checks around the folds as they stand after the repairs of the third round (ebd86cd … 04c8232) -/
+def checkFacts : CheckFacts :=
+  { constExprBin := true, constExprUn := true, overflowBin := true, overflowUn := true,
+    intBitsMax := some 512, shiftCountMax := some 1074, shiftClamp := 512, quoIntExact := true,
+    quoEarlyReturn := false, zeroForm := .anyConst, untypedStays := true, floatShiftCount := true,
+    convTypedChecked := true, reprConstValue := true, boolConvChecked := true, foldLogical := true,
+    cmpNotPushed := true, lenConstString := true, runeLitKeepsType := true }
+
+/-- the same before those repairs (what the extractor emits for a tree in which all of them are reverted) -/
+def checkFactsBeforeR3 : CheckFacts :=
+  { constExprBin := false, constExprUn := false, overflowBin := false, overflowUn := false,
+    intBitsMax := none, shiftCountMax := none, shiftClamp := 512, quoIntExact := false,
+    quoEarlyReturn := true, zeroForm := .untypedOnly, untypedStays := false, floatShiftCount := false,
+    convTypedChecked := false, reprConstValue := false, boolConvChecked := false, foldLogical := false,
+    cmpNotPushed := false, lenConstString := false, runeLitKeepsType := false }
+
+def evalFacts : EvalFacts :=
+  { constOp := constOp, folds := folds, quo := quoSwitch, fixSkipsConst := true, constToken := constToken, chk := checkFacts }
+
+/-- the facts before the repairs of the third round -/
+def evalFactsBeforeR3 : EvalFacts :=
+  { evalFacts with constOp := constOpBeforeR3, folds := folds.take 15, constToken := [], chk := checkFactsBeforeR3 }
 
 /-- the facts before the repair of F48 (the quotient switch looks at the node type) -/
 def evalFactsBeforeF48 : EvalFacts :=
@@ -87,17 +120,24 @@ def facts : Facts := { repr := reprFacts, eval := evalFacts }
 /-- fingerprints (extract `FuncHash`) of the functions Model/Const*.lean were transcribed from -/
 def sourceHashes : List (String × String) :=
   [("representableConst", "2abe3a5d0e4e7f59"),
-   ("typecheck.convertUntyped", "ccef1c7d32d3f9a2"),
-   ("typecheck.representable", "c1d651a31cd9a487"),
+   ("typecheck.convertUntyped", "00278fd04e62eec4"),
+   ("typecheck.representable", "a6193981455303bc"),
    ("typecheck.convertConst", "592472b25770db96"),
-   ("typecheck.conversion", "2e37fc9ef39b17cf"),
-   ("typecheck.shift", "779980d8e1a34275"),
-   ("typecheck.binaryExpr", "bd9d9a4915f51bf6"),
+   ("typecheck.conversion", "55c98117608103b7"),
+   ("typecheck.shift", "6a5ed17e12c79d37"),
+   ("typecheck.binaryExpr", "b41f85ab7575bf5f"),
    ("typecheck.unaryExpr", "bd8f95c0aa36fc91"),
    ("typecheck.comparison", "883b48f99f9c1eb8"),
-   ("typecheck.assignment", "6e57cb962e4cfc8a"),
+   ("typecheck.assignment", "b3fe6cb50a1a0a8c"),
    ("typecheck.assignExpr", "139b1b8b5a842d9c"),
-   ("zeroConst", "8cbcdcb861c6c7cb"),
+   ("zeroConst", "5f34021706e6e18d"),
+   ("typecheck.constExpr", "7b97ea14755df658"),
+   ("typecheck.constOverflow", "bdddf47d3946a177"),
+   ("compareConst", "6de87646444d446c"),
+   ("typecheck.logicalExpr", "a24028bbffaf38ba"),
+   ("constValue", "22b4b96731178a78"),
+   ("isUntypedConst", "7053d9361ff74e30"),
+   ("isConstString", "6e5144d88e8dc8d9"),
    ("addConst", "5a151a0c68652493"),
    ("subConst", "88e864a6dda66610"),
    ("mulConst", "38a3587d98a6fd91"),
